@@ -79,6 +79,12 @@ def judge(check, scenarios, name, trace, runs, v, module, consts, allow_relax=Tr
         return d
 
     viols = v["violations"]
+    stalls = [x for x in viols if x["inv"] == "InvNoStall"]
+    if stalls and check.prop not in ("C16", "C20"):
+        # only the properties that promise non-blocking operations judge a stuck thread; elsewhere it is reported, not judged
+        viols = [x for x in viols if x["inv"] != "InvNoStall"]
+        check.notes.append("%s: %d run(s) ended with a thread stuck inside the code under test (first: %s run %d)" % (name, len(stalls), stalls[0]["run"]["scn"], stalls[0]["run"]["run"]))
+        check.drift.append("%s: %d run(s) ended with a thread stuck for ever inside the code under test (judged by the checks of C16 / C20)" % (name, len(stalls)))
     if viols:
         bad_runs = {}
         for x in viols:
